@@ -19,7 +19,12 @@ def text(name):
     return _TXT[name]
 
 
-def run(pdb_text, args=(), transform=None, keep=None, write=False, after_read=None):
+# parameter override that switches the burial-dependent code paths on in
+# structures of a few dozen atoms (shipped values: Nmin 280, Nmax 560)
+BURIED = {'Nmin': 6, 'Nmax': 30}
+
+
+def run(pdb_text, args=(), transform=None, keep=None, write=False, after_read=None, params=None):
     """propka.run.single on a text; `transform(atom)` is applied to every atom
     right after the records were read (before topping up, bonding,
     protonation, group extraction); `keep(atom)` False deletes the atom."""
@@ -43,10 +48,19 @@ def run(pdb_text, args=(), transform=None, keep=None, write=False, after_read=No
             after_read(confs, names)
         return confs, names
     I.read_pdb = patched
+    orig_rpf = R.read_parameter_file
+    if params:
+        def rpf(input_file, parameters):
+            p = orig_rpf(input_file, parameters)
+            for k_, v_ in params.items():
+                setattr(p, k_, v_)
+            return p
+        R.read_parameter_file = rpf
     try:
         return R.single('micro.pdb', optargs=list(args) + ['--quiet'], stream=io.StringIO(pdb_text), write_pka=write)
     finally:
         I.read_pdb = orig
+        R.read_parameter_file = orig_rpf
 
 
 def akey(a):
